@@ -17,8 +17,10 @@ func genC12(r *Rng, tier string, o *Out) {
 		n = 60000
 	}
 	nlong := 4 // long runs away from the home offset with reset intervals around and beyond 2^15 and 2^16
+	nramp := 8 // ramps once around the 16-bit output range (see below)
 	if tier == "thorough" {
 		nlong = 40
+		nramp = 60
 	}
 	ngrp := 150 // the unwrappers as the Abaco source wires them: NewAbacoGroup + demuxData on real packets
 	if tier == "thorough" {
@@ -83,10 +85,54 @@ func genC12(r *Rng, tier string, o *Out) {
 			total = reset + r.Range(5, 80)
 			kind = 5
 		}
+		// directed share: a steady RAMP that carries the unwrap offset once around the whole 16-bit output range
+		// (2^(16-fb+drop) quanta in one direction) within fewer samples than the reset interval, a pause at what
+		// is - modulo 2^16 - the home offset again, one more flux jump, and then a flat stretch longer than the
+		// reset interval: the automatic return must come reset+1 samples after the LAST departure from home
+		ramp := !long && i >= nlong && i < nlong+nramp
+		if ramp {
+			pr := [][2]uint{{16, 4}, {14, 2}, {16, 1}, {15, 1}, {16, 2}, {13, 1}}[r.Intn(6)]
+			fb, drop = pr[0], pr[1]
+			enable, invert, bias = true, false, 0
+			reset = r.Pick(20, 50, 200)
+			kind = 6
+		}
 		data := make([]dastard.RawType, total)
 		x := r.Intn(65536)
 		twoPiRaw := 1 << fb
+		if ramp {
+			mask := twoPiRaw - 1
+			post := func(raw int) int { return (raw & mask) >> drop }
+			onePi := 1 << (fb - drop - 1)
+			turn := 1 << (16 - fb + drop)
+			data = data[:0]
+			dir := r.Pick(1, -1)
+			jumps, last := 0, 0
+			x &= mask
+			for first := true; jumps < turn; first = false {
+				if !first {
+					x = (x + dir*(twoPiRaw*6/10) + 4*twoPiRaw) & mask
+				}
+				v := post(x)
+				if !first && (v-last > onePi || v-last < -onePi) {
+					jumps++
+				}
+				last = v
+				data = append(data, dastard.RawType(x))
+			}
+			for k := r.Range(1, reset/2); k > 0; k-- { // back "home" modulo 2^16
+				data = append(data, dastard.RawType(x))
+			}
+			x = (x + dir*(twoPiRaw*6/10) + 4*twoPiRaw) & mask // one more jump (or not: both are fine)
+			for k := reset + r.Range(3, 12); k > 0; k-- {
+				data = append(data, dastard.RawType(x))
+			}
+			total = len(data)
+		}
 		for j := range data {
+			if ramp {
+				break
+			}
 			switch kind {
 			case 0: // uniform noise
 				x = r.Intn(65536)
